@@ -267,8 +267,18 @@ func round60(d time.Duration) int64 {
 	return n * 60
 }
 
-// virt maps a FirstSeen stamp found on disk to virtual seconds.
-func (s *sim) virt(t time.Time) int64 { return s.epochV + round60(t.Sub(s.epochR)) }
+// stampBias: stamps of earlier runs are written `stampBias` younger than their virtual age
+// (see normalise); stamps at or after the epoch were made by the run itself.
+const stampBias = 40 * time.Second
+
+// virt maps a FirstSeen stamp found on disk to virtual seconds. A stamp written by the run
+// that started at epochR is "now" however long that run took; older ones carry the bias.
+func (s *sim) virt(t time.Time) int64 {
+	if !t.Before(s.epochR) {
+		return s.epochV
+	}
+	return s.epochV + round60(t.Sub(s.epochR)-stampBias)
+}
 
 func readState(path string) (resolver.TrustAnchors, string) {
 	f, err := os.Open(path)
@@ -320,15 +330,15 @@ func writeGob(path string, v any) {
 
 // normalise rewrites the FirstSeen stamps of the state file so that, for the
 // AutoTA run about to start at real time r0, time.Since(FirstSeen) equals the
-// virtual age minus 20 s plus the (millisecond) real drift: every virtual age
+// virtual age minus 40 s plus the (millisecond) real drift: every virtual age
 // is a multiple of 60 s, so `age > holddown` has the same truth value for the
-// implementation and for the model as long as a run takes < 20 s.
+// implementation and for the model as long as a run takes < 40 s.
 func (s *sim) normalise(r0 time.Time) {
 	tas, st := readState(s.statePath())
 	if st == "ok" {
 		for _, ta := range tas {
 			f := s.virt(ta.FirstSeen)
-			ta.FirstSeen = r0.Add(-time.Duration(s.V-f)*time.Second + 20*time.Second)
+			ta.FirstSeen = r0.Add(-time.Duration(s.V-f)*time.Second + stampBias)
 		}
 		writeGob(s.statePath(), &tas)
 	}
@@ -628,7 +638,7 @@ func parseStateSeed(s *sim, arg string) resolver.TrustAnchors {
 		ref := parseRef(p[0])
 		age := vlib.AtoI64(p[2]) * 60
 		tas[ref.tag] = &resolver.TrustAnchor{DNSKey: ref.rr(), State: stBy[p[1]],
-			FirstSeen: now.Add(-time.Duration(age) * time.Second)}
+			FirstSeen: now.Add(-time.Duration(age)*time.Second + stampBias)}
 	}
 	return tas
 }
